@@ -33,6 +33,13 @@ pub fn check_world(w: &World, focus: Option<&str>) -> (Verdict, RunInfo, exec::R
             let explained = std::panic::catch_unwind(std::panic::AssertUnwindSafe(|| {
                 let mut m = model::Model::new(&w2, &last.history);
                 m.build();
+                if m.r2.is_empty() {
+                    return true;
+                }
+                // or under the policy "a file is read before it is refused as recursive"
+                let mut m = model::Model::new(&w2, &last.history);
+                m.read_before_refusal = true;
+                m.build();
                 m.r2.is_empty()
             }))
             .unwrap_or(false);
